@@ -15,12 +15,22 @@ def mk_spec(tier, variant=0):
     """variant 0: 1 type, 1 real depot; variant 1: 2 types, 2 real depots"""
     if variant == 0:
         sp = NB.Spec(nloc=2, types=[dict(cap=5, seats=7, limit='sym')], depots=[dict(allowed={0: 'sym'})], trips=[dict(vt=0, limit='sym') for _ in range(3)], maint=1,
-                     level='full', maxdist='sym', paxmax=12, capmax=2)
+                     level='listed', maxdist='sym', paxmax=12, capmax=2)
     else:
         sp = NB.Spec(nloc=2, types=[dict(cap=5, seats=7, limit='sym'), dict(cap=11, seats=3, limit=None)], depots=[dict(allowed={0: 'sym', 1: 'none'}), dict(allowed={0: 'none', 1: 'absent'})],
-                     trips=[dict(vt=0, limit='sym'), dict(vt=0, limit=None), dict(vt=1, limit='sym')], maint=1, level='full', maxdist='sym', paxmax=12, capmax=2)
+                     trips=[dict(vt=0, limit='sym'), dict(vt=0, limit=None), dict(vt=1, limit='sym')], maint=1, level='listed', maxdist='sym', paxmax=12, capmax=2)
     sp.maxdist_max = 4096; sp.overflow_cap = 12
     return sp
+
+def _m_all_service(ex, callee, args):
+    nw = ex.strip(args[0]); nodes = F(nw, 'Network', 'nodes')
+    return M.ListIter([copy_val(k) for k, c in nodes.entries if k.variant == NB.NV['Service']])
+def _m_coverable(ex, callee, args):
+    nw = ex.strip(args[0]); nodes = F(nw, 'Network', 'nodes')
+    return M.ListIter([copy_val(k) for k, c in nodes.entries if k.variant in (NB.NV['Service'], NB.NV['Maintenance'])])
+# the iteration ORDER of these two listings is abstracted (id order instead of departure order): schedule modifications only sum over them
+# or initialise maps from them; a use that depends on the order would touch the opaque time-sorted maps and end as inconclusive
+LISTED_MODELS = [(r'^Network::all_service_nodes$', _m_all_service), (r'^Network::coverable_nodes$', _m_coverable)]
 
 # ------------------------------------------------------------------ reading a Schedule value
 def vkey(v): return ('veh_%d' if v.variant == 0 else 'dummy_%d') % conc(v.fields[0])
@@ -135,6 +145,7 @@ def apply_op(ex, net, s, op):
 def unpack(r):
     """(new schedule value or None, extra)"""
     if r.variant != 0: return None, None
+    if not r.fields: raise Unsupported('unexpected result value %r' % r)
     v = r.fields[0]
     if isinstance(v, Agg) and v.ty == 'tuple': return v.fields[0], v.fields[1]
     return v, None
@@ -158,8 +169,11 @@ def effects(net, op, before, after, extra_val, ex):
     B = dict(before['tours']); B.update(before['dummies']); A = dict(after['tours']); A.update(after['dummies'])
     Ba = {v: acts_of(net, n) for v, n in B.items()}; Aa = {v: acts_of(net, n) for v, n in A.items()}
     touched = set()
+    def fresh():
+        if 'counter' in before: return 'veh_%d' % before['counter']
+        n = [v for v in after['tours'] if v not in before['tours']]; return n[0] if len(n) == 1 else 'veh_?'
     if k == 'spawn':
-        new = 'veh_%d' % before['counter']; touched = {new}
+        new = fresh(); touched = {new}
         out.append(('spawn: a new vehicle serves exactly the given path', new in after['tours'] and Aa.get(new) == acts_of(net, op[2]) and after['vehicles'].get(new) == op[1]))
         out.append(('spawn: an available depot given in the path is used', True))
     elif k == 'to_dummy':
@@ -202,7 +216,7 @@ def effects(net, op, before, after, extra_val, ex):
         if k == 'recompute_transitions_for': out.append(('recompute_transitions changes no tour', A == B))
         touched = set(A) | set(B)
     elif k == 'spawn_dummy':
-        d = op[1]; new = 'veh_%d' % before['counter']; touched = {d, new}
+        d = op[1]; new = fresh(); touched = {d, new}
         out.append(('spawn_vehicle_to_replace_dummy_tour: the dummy disappears and a new vehicle serves its trips', d not in A and Aa.get(new) == Ba[d]))
     out.append(('all other vehicles\' tours stay untouched', all(A.get(v) == B[v] for v in B if v not in touched) and all(v in B or v in touched for v in A)))
     changed_nodes = set(n for v in touched for n in Ba.get(v, []) + Aa.get(v, []))
@@ -261,26 +275,64 @@ def comparable(st):
     return {k: v for k, v in st.items() if k not in ('tour_vals', 'dummy_vals', 'unserved', 'maintenance_violation', 'costs', 'transitions')}, \
            (str(sx(st['costs'])), str(sx(st['unserved'][0])), str(sx(st['maintenance_violation'])))
 
-def job_script(name, tier, variant, prefix, props, width=200, explicit=None):
+ALL_PROPS = ['C09', 'C10', 'C13', 'C02', 'C05', 'C01']
+PREFIX = {'C09': ('aggregate',), 'C10': ('invariant',), 'C13': ('effect',), 'C02': ('limits',), 'C05': ('repeatable',), 'C01': ('itinerary',)}
+def _cache_key(args):
+    import hashlib, glob
+    from .. import build
+    h = hashlib.sha256(build.src_hash(['model', 'solution']).encode())
+    for f in sorted(glob.glob(os.path.join(build.VERIF, 'mirsym', '*.py')) + glob.glob(os.path.join(build.VERIF, 'mirsym', '*', '*.py')) + glob.glob(os.path.join(build.VERIF, 'replay', 'src', '*.rs'))):
+        h.update(open(f, 'rb').read())
+    h.update(json.dumps(args, sort_keys=True, default=str).encode())
+    return h.hexdigest()[:24]
+def job_script(name, tier, variant, prefix, props, lo=0, hi=200, explicit=None):
+    """the exploration computes the clause families of all six schedule-level properties at once; its result is cached
+    (keyed by a hash of /repo's current model+solution sources, of the machinery and of the job), and each property's
+    check reads its own families from it - so a changed tree is always recomputed, an unchanged one is explored once"""
+    import pickle
+    from .. import build
+    key = _cache_key([tier, variant, prefix, lo, hi, explicit])
+    d = os.path.join(build.BUILD, 'cache'); os.makedirs(d, exist_ok=True); f = os.path.join(d, key + '.pkl')
+    if os.path.exists(f) and os.environ.get('VERIF_NOCACHE') != '1':
+        full = pickle.load(open(f, 'rb')); full['notes'] = list(full.get('notes', [])) + ['shared exploration reused (cache key %s)' % key]
+    else:
+        full = _job_script(name, tier, variant, prefix, ALL_PROPS, lo, hi, explicit)
+        if not full.get('inconclusive'):
+            tmp = f + '.%d' % os.getpid(); pickle.dump(full, open(tmp, 'wb')); os.replace(tmp, f)
+    full['allow_empty'] = explicit is None
+    return filter_result(full, props, name)
+def filter_result(full, props, name):
+    pre = tuple(p for q in props for p in PREFIX[q]) + ('',)
+    r = dict(full); r['name'] = name
+    fam = full.get('fam', {})
+    r['obligations'] = sum(v[0] for k, v in fam.items() if k in pre); r['discharged'] = sum(v[1] for k, v in fam.items() if k in pre)
+    r['allow_empty'] = True
+    r['cex'] = [c for c in full.get('cex', []) if (c['clause'].split(':')[0] if ':' in c['clause'] else '') in pre]
+    return r
+def _job_script(name, tier, variant, prefix, props, lo, hi, explicit=None):
     """all scripts prefix + [i] for i < width (menu index at the last step; aborts when the menu is exhausted on every path)"""
-    J = JobCtx(name, CRATES); ex = J.ex
-    last_range = [None] if explicit is not None else range(width)
+    J = JobCtx(name, CRATES, extra_models=LISTED_MODELS); ex = J.ex
+    last_range = [None] if explicit is not None else range(lo, hi)
     for last in last_range:
         vec = list(prefix) + ([] if last is None else [last])
-        reached = [0]
+        reached = [0]; ctx = {}; before_paths = J.paths
         def body():
             ex.pc_global = []; ex.inputs = {}
             net = NB.build(ex, mk_spec(tier, variant))
             s = ex.call('Schedule::empty', [net.arc])
-            hist = []; st = read_schedule(ex, s)
+            hist = []; st = read_schedule(ex, s); ctx['net'] = net; ctx['hist'] = hist
             for step, idx in enumerate(vec):
                 ops = menu(net, st, tier)
-                if isinstance(idx, (tuple, list)): op = tuple(idx)
+                if isinstance(idx, (tuple, list)):
+                    op = tuple(idx)
+                    if op not in ops and not (op[0] in ('spawn', 'add_path') and all(x in st['tours'] for x in op[1:2] if isinstance(x, str))): raise PathAbort()    # explicit scripts stay inside the valid arguments
+                    if any(isinstance(x, str) and x.startswith(('veh_', 'dummy_')) and x not in st['tours'] and x not in st['dummies'] for x in op[1:]): raise PathAbort()
                 else:
                     if idx >= len(ops): raise PathAbort()
                     op = ops[idx]
-                before = st; cmp_before = comparable(before)
+                before = st; cmp_before = comparable(before); ctx['pending'] = op
                 r = apply_op(ex, net, s, op)
+                if isinstance(r, Agg) and r.variant == 0 and not r.fields: raise Unsupported('op %s returned %r' % (op, r))
                 input_after = comparable(read_schedule(ex, s)) == cmp_before
                 ns, extra = unpack(r)
                 after = read_schedule(ex, ns) if ns is not None else None
@@ -289,7 +341,20 @@ def job_script(name, tier, variant, prefix, props, width=200, explicit=None):
             return net, hist
         for pc, r in J.explore(body):
             if isinstance(r, Panic):
-                J.panic(pc, r, clause='schedule modifications do not panic on valid arguments'); continue
+                def mkp(m, msg=r.msg, net=ctx.get('net'), hist=list(ctx.get('hist', [])), op=ctx.get('pending')):
+                    if net is None: return None
+                    ops = [dict(op='schedule_empty', name='S0')]; cur = 0
+                    for i, h in enumerate(hist):
+                        ops.append(replay_op(net, h['op'], 'S%d' % cur, 'S%d' % (i + 1)))
+                        if h['ok']: cur = i + 1
+                    ops.append(replay_op(net, op, 'S%d' % cur, 'SX'))
+                    sc = dict(instance=NB.to_json(net, m), ops=ops); res = {}
+                    for prof in ('dev', 'release'):
+                        obs = replay.run(sc, prof); res[prof] = [o['panic'][:160] for o in obs if isinstance(o, dict) and 'panic' in o]
+                    script = [h['op'] for h in hist] + [op]
+                    return dict(signature='panic in %s: %s' % (op[0], msg[:60]), what='%s panics (%s) after the script %s' % (op[0], msg[:100], script), scenario=sc,
+                                expect=dict(native=res), native_confirmed=all(res[p_] for p_ in res))
+                J.panic(pc, r, clause='schedule modifications do not panic on valid arguments', mk_cex=mkp); continue
             net, hist = r; J.reached += 1; reached[0] += 1
             script = [h['op'] for h in hist]
             def native_eval(m, net=net, hist=hist):
@@ -319,14 +384,15 @@ def job_script(name, tier, variant, prefix, props, width=200, explicit=None):
                 confirmed = all(any(b == clause or b.startswith('native panic') or b.endswith('symbolic Ok') or b.endswith('symbolic Err') for b in res[p]) for p in res)
                 return dict(signature='%s after %s' % (clause.split(':')[0] + ':' + clause.split(':')[1][:60] if ':' in clause else clause, [o[0] for o in script]), what='%s after the script %s' % (clause, script),
                             scenario=sc, expect=dict(native=res), native_confirmed=confirmed)
-            for h in hist:
+            for hi, h in enumerate(hist):
                 J.covers.add('op:' + h['op'][0] + (':ok' if h['ok'] else ':err'))
+                if explicit is None and hi < len(hist) - 1: continue       # earlier steps are the last steps of the shorter scripts
                 for c, f in clauses_for(props, net, ex, h['op'], h['before'], h['after'], h['extra'], h['input_after']):
                     J.prove(pc, f, c, lambda m, c=c: mk(m, c))
             if any(TS.nowhere(net, n) for h in hist if h['after'] for nodes in h['after']['tours'].values() for n in nodes): J.covers.add('overflow depot used')
             J.witness(pc, lambda m: dict(scenario=native_eval(m)[0], check='script'), limit=1)
             J.sample('script %s' % script)
-        if reached[0] == 0 and explicit is None: break
+        if J.paths == before_paths and explicit is None: break      # the menu is exhausted on every path
     return J.result()
 
 def comparable_native(st):
@@ -343,16 +409,21 @@ def validate(w):
 
 def all_jobs(tier, seed, props):
     js = []
-    # depth 1 and 2 exhaustively from the empty schedule (variant 0), explicit deeper scripts, thorough: depth 3 and the two-type variant
-    n0 = 12       # upper bound of the menu size of the empty schedule (spawns only); indices beyond the menu abort
-    js.append(dict(name='scripts len 1', func='job_script', kwargs=dict(tier=tier, variant=0, prefix=[], props=props, width=n0 + 8)))
-    for i in range(n0): js.append(dict(name='scripts len 2, first op %d' % i, func='job_script', kwargs=dict(tier=tier, variant=0, prefix=[i], props=props, width=80)))
-    deep = DEEP if tier == 'quick' else DEEP + DEEP2
+    n0 = 12; chunk = 2
+    # quick: every script of length 1, every script of length 2 whose first operation is one of three representative spawns
+    # (single trip, maintenance slot, trip with explicit depots); thorough: all first operations, length 3, two types
+    js.append(dict(name='scripts len 1', func='job_script', kwargs=dict(tier=tier, variant=0, prefix=[], props=props, lo=0, hi=n0 + 8)))
+    firsts = [0, 3, 6] if tier == 'quick' else list(range(n0))
+    for i in firsts:
+        for lo in range(0, 70, chunk): js.append(dict(name='scripts len 2, first op %d, second %d..%d' % (i, lo, lo + chunk - 1), func='job_script', kwargs=dict(tier=tier, variant=0, prefix=[i], props=props, lo=lo, hi=lo + chunk)))
+    deep = [d for i, d in enumerate(DEEP) if i != 2] if tier == 'quick' else DEEP + DEEP2
     for k, sc in enumerate(deep): js.append(dict(name='deep script %d' % k, func='job_script', kwargs=dict(tier=tier, variant=sc[0], prefix=sc[1], props=props, explicit=True)))
     if tier == 'thorough':
-        for i in range(n0):
-            for j in range(60): js.append(dict(name='scripts len 3, first ops %d %d' % (i, j), func='job_script', kwargs=dict(tier=tier, variant=0, prefix=[i, j], props=props, width=120)))
-        for i in range(16): js.append(dict(name='two types: scripts len 2, first op %d' % i, func='job_script', kwargs=dict(tier=tier, variant=1, prefix=[i], props=props, width=100)))
+        for i in (0, 3, 4):
+            for j in range(0, 64, 2):
+                for lo in range(0, 96, 16): js.append(dict(name='scripts len 3, first ops %d %d.., third %d..' % (i, j, lo), func='job_script', kwargs=dict(tier=tier, variant=0, prefix=[i, j], props=props, lo=lo, hi=lo + 16)))
+        for i in range(16):
+            for lo in range(0, 96, 16): js.append(dict(name='two types: scripts len 2, first op %d, second %d..' % (i, lo), func='job_script', kwargs=dict(tier=tier, variant=1, prefix=[i], props=props, lo=lo, hi=lo + 16)))
     return js
 
 # explicit deeper scripts: (variant, [ops]); node numbers follow netbuild (variant 0: depots 0..3, trips 4,5,6, slot 7)
@@ -363,7 +434,6 @@ DEEP = [
     (0, [('spawn', 0, [4]), ('spawn', 0, [7]), ('spawn', 0, [5]), ('reassign_end_depots_consistent_with_transitions',)]),
     (0, [('spawn', 0, [4]), ('to_dummy', 'veh_0'), ('spawn_dummy', 'dummy_1', 0), ('reassign_end_depots_greedily',)]),
     (0, [('spawn', 0, [4]), ('spawn', 0, [4]), ('remove_segment', 'veh_0', 4, 4), ('recompute_transitions_for',)]),
-    (0, [('spawn', 0, [4]), ('add_path', 'veh_0', [5]), ('add_path', 'veh_0', [7]), ('remove_segment', 'veh_0', 5, 5)]),
 ]
 DEEP2 = [
     (1, [('spawn', 0, [6]), ('spawn', 1, [8]), ('spawn', 0, [7]), ('reassign_end_depots_consistent_with_transitions',)]),
